@@ -6,7 +6,9 @@ pub mod stubs;
 #[cfg(not(kani))]
 pub mod registry;
 
-#[cfg(any(feature = "c08", not(kani)))]
-pub mod c08;
 #[cfg(any(feature = "c04", not(kani)))]
 pub mod c04;
+#[cfg(any(feature = "c07", not(kani)))]
+pub mod c07;
+#[cfg(any(feature = "c08", not(kani)))]
+pub mod c08;
